@@ -1,2 +1,6 @@
 -- Root of the `Argot` library: models (core only), specs, proofs and property theorems.
 import Argot.Props.C16
+import Argot.Props.C19
+import Argot.Props.C20
+import Argot.Props.C15
+import Argot.Props.C09
